@@ -162,3 +162,57 @@ pub fn run_pauli_exp(case: &Value) -> Value {
     out["readback"] = json!([ps_json(&ps)]);
     out
 }
+
+/// op "trotter": first/second-order steps and trotter_evolve_state on the real crate.
+pub fn run_trotter(case: &Value) -> Value {
+    use quant_iron::time_evolution::{first_order_trotter_step, second_order_trotter_step, trotter_evolve_state, TrotterOrder};
+    let mode = case["mode"].as_str().unwrap();
+    let st = state_of(case);
+    let thr = case.get("thr").map(vu).unwrap_or(10);
+    let hook = &quant_iron::verif_hooks::PARALLEL_THRESHOLD;
+    hook.set(thr);
+    let terms = case["terms"].as_array().unwrap();
+    let h = SumOp::new(terms.iter().map(|t| build_ps(t, None)).collect());
+    let dt = vf(&case["dt"]);
+    let k = case.get("k").map(vu).unwrap_or(1);
+    let second = case.get("order").map(vu).unwrap_or(1) == 2;
+    let ord = if second { TrotterOrder::Second } else { TrotterOrder::First };
+    let step = |s: &State, d: f64| if second { second_order_trotter_step(&h, s, d) } else { first_order_trotter_step(&h, s, d) };
+    let mut out = match mode {
+        "step" => state_json(step(&st, dt)),
+        "evolve" => state_json(trotter_evolve_state(&h, &st, dt, k, ord)),
+        // S(-dt) S(dt) psi
+        "rev" => state_json(step(&st, dt).and_then(|s| step(&s, -dt))),
+        // evolve(k) against k successive steps, and evolve(0) against the input
+        "evolve_vs_steps" => {
+            let e = trotter_evolve_state(&h, &st, dt, k, ord);
+            let mut cur: Result<State, quant_iron::errors::Error> = Ok(st.clone());
+            for _ in 0..k { cur = cur.and_then(|s| step(&s, dt)); }
+            let e0 = trotter_evolve_state(&h, &st, dt, 0, ord);
+            let same = |a: &Result<State, quant_iron::errors::Error>, b: &Result<State, quant_iron::errors::Error>| match (a, b) {
+                (Ok(x), Ok(y)) => x.num_qubits == y.num_qubits && x.state_vector.iter().zip(y.state_vector.iter()).all(|(p, q)| p.re.to_bits() == q.re.to_bits() && p.im.to_bits() == q.im.to_bits()),
+                (Err(x), Err(y)) => format!("{:?}", x) == format!("{:?}", y),
+                _ => false };
+            let mut o = state_json(e.clone());
+            o["steps_equal"] = json!(same(&e, &cur));
+            o["zero_is_identity"] = json!(same(&e0, &Ok(st.clone())));
+            o
+        }
+        _ => json!({"r": "harness_error", "e": format!("unknown trotter mode {}", mode)}),
+    };
+    hook.set(10);
+    // libm values per term for the factor actually used by one sweep
+    let d = if second { dt / 2.0 } else { dt };
+    let mut orc = vec![];
+    let mut orc_neg = vec![];
+    for t in &h.terms {
+        for (dd, dst) in [(d, &mut orc), (-d, &mut orc_neg)] {
+            let alpha = t.coefficient() * Complex::new(0.0, -dd);
+            dst.push(json!([hexf(alpha.exp().re), hexf(alpha.exp().im), hexf(alpha.cosh().re), hexf(alpha.cosh().im), hexf(alpha.sinh().re), hexf(alpha.sinh().im)]));
+        }
+    }
+    out["oracle"] = json!(orc);
+    out["oracle_neg"] = json!(orc_neg);
+    out["readback"] = sum_json(&h);
+    out
+}
